@@ -60,7 +60,11 @@ def eval_expr(e: ast.AST, direction_exprs: set, tt: str) -> ast.AST:
     if isinstance(e, ast.IfExp):
         v = eval_test(e.test, direction_exprs, tt)
         if v is None:
-            raise Unknown(f"test `{norm(e.test)}` is not a direction test")
+            # not a direction test (e.g. isinstance(value, list)): keep the conditional, resolve inside the branches
+            if any(norm(n) in direction_exprs for n in ast.walk(e.test)):
+                raise Unknown(f"test `{norm(e.test)}` mixes the direction with other conditions")
+            return ast.IfExp(test=e.test, body=eval_expr(e.body, direction_exprs, tt),
+                             orelse=eval_expr(e.orelse, direction_exprs, tt))
         return eval_expr(e.body if v else e.orelse, direction_exprs, tt)
     return e
 
@@ -94,9 +98,20 @@ def eval_function(fi_node, direction_exprs: set, tt: str) -> list:
 
 
 def sign_of(e: ast.AST, core_pred) -> Optional[int]:
-    """+1 / -1 if e is (+/-) an expression accepted by core_pred, else None."""
+    """+1 / -1 if e is (+/-) an expression accepted by core_pred, else None.  A conditional on something
+    other than the direction (e.g. ``isinstance(v, list)``) must have the same sign on both branches; an
+    element-wise comprehension ``[-v for v in X]`` carries the sign of its element applied to X."""
     if core_pred(e):
         return +1
+    if isinstance(e, ast.IfExp):
+        a, b = sign_of(e.body, core_pred), sign_of(e.orelse, core_pred)
+        return a if a is not None and a == b else None
+    if isinstance(e, (ast.ListComp, ast.GeneratorExp)) and len(e.generators) == 1 and not e.generators[0].ifs \
+            and isinstance(e.generators[0].target, ast.Name) and core_pred(e.generators[0].iter):
+        v = e.generators[0].target.id
+        return sign_of(e.elt, lambda z: isinstance(z, ast.Name) and z.id == v)
+    if isinstance(e, ast.Call) and isinstance(e.func, ast.Name) and e.func.id in ("list", "tuple") and len(e.args) == 1:
+        return sign_of(e.args[0], core_pred)
     if isinstance(e, ast.UnaryOp) and isinstance(e.op, ast.USub):
         s = sign_of(e.operand, core_pred)
         return None if s is None else -s
@@ -133,7 +148,10 @@ def fcn_signs(prog: Program) -> dict:
     fi = prog.func(f"{PKG}.abstract.OptimizationAbstract._fcn")
     x = fi.params[1] if len(fi.params) > 1 else None
 
+    from .flow import origin
+
     def core(e):
+        e = origin(fi.node, e) if isinstance(e, ast.Name) else e
         return (isinstance(e, ast.Call) and dotted(e.func) == "self._task.solve" and len(e.args) == 1
                 and isinstance(e.args[0], ast.Name) and e.args[0].id == x and not e.keywords)
     out, why = {}, {}
